@@ -61,4 +61,11 @@ CHECKS = {
         "assumptions": ["updates for an exchange whose (client, rx) key was reused by a later exchange are not issued (keying ambiguity that needs a backward clock step)"],
         "timeout_quick": 400, "timeout_thorough": 1800,
     },
+    "C07": {
+        "pkg": "c07", "shards": 6, "mem_gb": 6,
+        "parts": [{"pkg": "c07"}, {"pkg": "c07c", "race": True, "shards": 8}],
+        "rule": "rapid state machine (structure), capacity/eviction model at the real 2^20 capacity, concurrent batches with the race detector.",
+        "assumptions": ["timestamp order is the implementation's plain (seconds, fraction) order (LessV), as the statement says", "schedules are those the Go runtime produces; not enumerated"],
+        "timeout_quick": 600, "timeout_thorough": 2400,
+    },
 }
